@@ -10,6 +10,9 @@
 
 #include "IO/ProgramOptions.hpp"
 
+#include <iomanip>
+#include <limits>
+
 vfps::ProgramOptions::ProgramOptions() :
     _configfile("default.cfg"),
     I_b({3e-3f}),
@@ -417,12 +420,15 @@ void vfps::ProgramOptions::save(std::string fname)
             continue;
         } else
         if (!it->second.value().empty()) {
+            // enough digits to read back exactly the same value
             if (it->second.value().type() == typeid(float)) {
-                ofs << it->first << '='
+                ofs << std::setprecision(std::numeric_limits<float>::max_digits10)
+                    << it->first << '='
                     << _vm[it->first].as<float>()
                     << std::endl;
             } else if (it->second.value().type() == typeid(double)) {
-                ofs << it->first << '='
+                ofs << std::setprecision(std::numeric_limits<double>::max_digits10)
+                    << it->first << '='
                     << _vm[it->first].as<double>()
                     << std::endl;
             } else if (it->second.value().type() == typeid(int32_t)) {
@@ -444,6 +450,8 @@ void vfps::ProgramOptions::save(std::string fname)
             } else if (it->second.value().type()
                        == typeid(std::vector<integral_t>)) {
                 // multitoken option: one line per value
+                ofs << std::setprecision(
+                           std::numeric_limits<integral_t>::max_digits10);
                 for (auto v : _vm[it->first].as<std::vector<integral_t>>()) {
                     ofs << it->first << '=' << v << std::endl;
                 }
